@@ -106,6 +106,13 @@ class FMMetrics(Metrics):  # pylint: disable=too-many-instance-attributes
             _constraints_per_feature.append(cpf)
         return _constraints_per_feature
 
+    @staticmethod
+    def _is_grouped(feature: Feature) -> bool:
+        """A feature is grouped if it is a member of a group relation of its parent."""
+        return feature.parent is not None and any(
+            r.is_group() and feature in r.children for r in feature.parent.get_relations()
+        )
+
     def get_feature_ancestors(self, feature: Feature) -> list[Feature]:
         features = []
         parent = feature.get_parent()
@@ -346,7 +353,7 @@ class FMMetrics(Metrics):  # pylint: disable=too-many-instance-attributes
         _solitary_features = [
             f.name
             for f in self._features
-            if not f.is_root() and f.parent is not None and not f.parent.is_group()
+            if not f.is_root() and f.parent is not None and not self._is_grouped(f)
         ]
         result = self.construct_result(
             name=name,
@@ -366,7 +373,7 @@ class FMMetrics(Metrics):  # pylint: disable=too-many-instance-attributes
         _grouped_features = [
             f.name
             for f in self._features
-            if not f.is_root() and f.parent is not None and f.parent.is_group()
+            if not f.is_root() and f.parent is not None and self._is_grouped(f)
         ]
         result = self.construct_result(
             name=name,
